@@ -250,7 +250,7 @@ func intervals(fn *ssa.Function) *intervalResult {
 				case *ssa.Return:
 				case *ssa.Call:
 					// a helper of the same package: use the interval of what it returns (parameters at their type ranges)
-					if callee := in.Call.StaticCallee(); callee != nil && callee.Pkg == fn.Pkg && callee.Blocks != nil && callee != fn && intervalDepth < 4 && callee.Signature.Results().Len() == 1 {
+					if callee := in.Call.StaticCallee(); callee != nil && ssaPkgOf(callee) == ssaPkgOf(fn) && callee.Blocks != nil && callee != fn && intervalDepth < 4 && callee.Signature.Results().Len() == 1 {
 						intervalDepth++
 						sub := intervals(callee)
 						intervalDepth--
@@ -321,7 +321,7 @@ func byteSumOps(fn *ssa.Function) []string {
 		for _, b := range f.Blocks {
 			for _, in := range b.Instrs {
 				if c, ok := in.(ssa.CallInstruction); ok {
-					if callee := c.Common().StaticCallee(); callee != nil && callee.Pkg == fn.Pkg {
+					if callee := c.Common().StaticCallee(); callee != nil && ssaPkgOf(callee) == ssaPkgOf(fn) {
 						collect(callee)
 					}
 				}
@@ -723,4 +723,18 @@ func evalEmpty(v *Val) (constant.Value, bool) {
 		}
 	}
 	return nil, false
+}
+
+// ssaPkgOf: the package a function belongs to; instantiations of generic functions are not package members themselves.
+func ssaPkgOf(f *ssa.Function) *ssa.Package {
+	if f.Pkg != nil {
+		return f.Pkg
+	}
+	if o := f.Origin(); o != nil {
+		return o.Pkg
+	}
+	if p := f.Parent(); p != nil {
+		return ssaPkgOf(p)
+	}
+	return nil
 }
